@@ -11,8 +11,8 @@ import (
 
 func init() {
 	register(&PropDef{
-		ID:       "C09",
-		Patterns: []string{"./std/channel", "./std"},
+		ID:          "C09",
+		Patterns:    []string{"./std/channel", "./std"},
 		Explanation: "Exactly-once delivery and per-sender FIFO order are inherited from the single underlying Go channel as long as the wrapper performs exactly one channel operation per successful call and nobody else touches the channel; the 'no crash under concurrent close' clause depends on the closed-flag protocol. Decided structurally: (ONCE) each path of Send that reports success performs exactly one send and failing paths none, Receive performs exactly one receive, and the chan field is used only inside Channel's methods; (CHECK) Send and Close test the closed flag before operating and Send reports failure on the closed arm, Receive uses the two-result form; (SYNC) every access of the closed flag is synchronised; (SAFE) a send or close cannot panic against a concurrent close. Delivery under all interleavings is the Go runtime's guarantee and is not re-proved; absence of deadlock is not decided.",
 		Assumptions: []string{
 			"Go channel semantics: FIFO, each value received once, send on / close of a closed channel panics",
